@@ -640,6 +640,36 @@ func Main() {
 				}
 			}
 		}
+	case "trace": // debug: trace <id> <tier> <scenario substring> <choices: "i=c,i=c" sparse list>
+		for _, p := range registry[os.Args[2]].Plans(os.Args[3]) {
+			if !strings.Contains(p.Scen.Name, os.Args[4]) {
+				continue
+			}
+			s := p.Scen
+			sparse := map[int]int{}
+			maxI := -1
+			if len(os.Args) > 5 && os.Args[5] != "" {
+				for _, kv := range strings.Split(os.Args[5], ",") {
+					var i, c int
+					fmt.Sscanf(kv, "%d=%d", &i, &c)
+					sparse[i] = c
+					if i > maxI {
+						maxI = i
+					}
+				}
+			}
+			choices := make([]int, maxI+1)
+			for i, c := range sparse {
+				choices[i] = c
+			}
+			e := sched.Replay(opts(s), choices, s.Body)
+			fmt.Println(s.Name)
+			for i, t := range e.Trace {
+				fmt.Printf("%5d %s\n", i, t)
+			}
+			fmt.Println("obs:", e.Obs, "check:", s.Check(e))
+			break
+		}
 	default:
 		os.Exit(2)
 	}
